@@ -71,6 +71,11 @@ def cases(tier, seed):
         out.append(dict(kind='conn', conn=kind, pair=pair, pos=list(pos), order=order, lead=lead, seed=seed))
     for ctype, pair in itertools.product(['xcte', 'ycte', 'bot-top', 'xcte-ycte', 'ycte-xcte'], ['equal', 'lam', 'size']):
         out.append(dict(kind='ktkr', ctype=ctype, pair=pair, seed=seed))
+    # connection lists built internally by the 2D stiffeners (interface positions, offsets, constants)
+    for curved, ecb, ecf, widths in itertools.product([0, 1], [0.0, -0.5], [-1.0, 1.0, 0.5], [(0.10, 0.03), (0.04, 0.06)]):
+        out.append(dict(kind='tstiff', curved=curved, eta_conn_base=ecb, eta_conn_flange=ecf, bb=widths[0], bf=widths[1], seed=seed))
+    for curved, ysf, bf in itertools.product([0, 1], [0.2, 0.5, 0.8], [0.03, 0.06]):
+        out.append(dict(kind='b2d', curved=curved, ysf=ysf, bf=bf, seed=seed))
     return out
 
 
@@ -215,8 +220,105 @@ def check_ktkr(case):
         for a, b, nm in zip(k1, k3, ('kt', 'kr')):
             if a is not None and abs(b - e * a) > 1e-11 * abs(e * a):
                 fails.append(fail('penalty constant %s does not scale linearly with the elastic moduli' % nm, sig=None, case=case))
+    # history: the same Panel objects are re-used after their ply properties were changed
+    if len(pan.laminate_of(cfgA)[1]) == 6 and len(pan.laminate_of(cfgB)[1]) == 6:
+        qa, qb = pan.make_panel(cfgA), pan.make_panel(cfgB)
+        k_first = connections.calc_kt_kr(qa, qb, case['ctype'])
+        for q, cfg in ((qa, cfgA), (qb, cfgB)):
+            E1, E2, nu, G12, G13, G23 = pan.laminate_of(cfg)[1]
+            newp = (E1 * e, E2 * e, nu, G12 * e, G13 * e, G23 * e)
+            q.laminaprop = newp
+            q.laminaprops = [newp for _ in q.stack]
+        k_again = connections.calc_kt_kr(qa, qb, case['ctype'])
+        for a, b, nm in zip(k_first, k_again, ('kt', 'kr')):
+            if a is not None and abs(b - e * a) > 1e-11 * abs(e * a):
+                fails.append(fail('penalty constant %s of re-used panels does not follow their changed ply properties' % nm, sig=None, case=case,
+                                  first=a, again=b, expected=e * a))
+    return dict(fails=fails, execs=5, transitions=5, nontrivial=1)
+
+
+def _bay(curved, seed):
+    from compmech.stiffpanelbay import StiffPanelBay
+    spb = StiffPanelBay()
+    spb.a, spb.b, spb.m, spb.n = 0.8, 0.5, 4, 5
+    if curved:
+        spb.r = 2.0
+    spb.stack, spb.plyt, spb.laminaprop, spb.mu = [0., 90., 90., 0.], pan.PLYT, pan.M6, 1500.
+    return spb
+
+
+def _ref_of_panel(p):
+    return pan.rp.PanelRef(p.a, p.b, p.m, p.n, {f: getattr(p, f) for f in pan.FLAGS}, r=(p.r if p.r else None))
+
+
+def check_tstiff(case):
+    """base-flange connection assembled inside TStiff2D.calc_k0: flange-flange and base-flange blocks"""
+    import compmech.panel.connections as connections
+    fails = []
+    spb = _bay(case['curved'], case['seed'])
+    ys = 0.2
+    spb.add_panel(y1=0., y2=ys)
+    spb.add_panel(y1=ys, y2=spb.b)
+    s = spb.add_tstiff2d(ys=ys, mu=1500., bb=case['bb'], bstack=[0., 90.], bplyt=pan.PLYT, blaminaprop=pan.M6, mb=3, nb=4,
+                         bf=case['bf'], fstack=[0., 90., 0.], fplyt=pan.PLYT, flaminaprop=pan.M6, mf=4, nf=3)
+    s.eta_conn_base, s.eta_conn_flange = case['eta_conn_base'], case['eta_conn_flange']
+    spb.calc_k0(silent=True)
+    size = spb.get_size()
+    nskin = 3 * spb.m * spb.n
+    nb, nf = 3 * s.base.m * s.base.n, 3 * s.flange.m * s.flange.n
+    s.calc_k0(size=size, row0=nskin, col0=nskin, silent=True)
+    K = pan.dense(s.k0)
+    kt, kr = connections.calc_kt_kr(s.base, s.flange, 'ycte')
+    refb, reff = _ref_of_panel(s.base), _ref_of_panel(s.flange)
+    y1c = (case['eta_conn_base'] + 1) / 2. * s.base.b
+    y2c = (case['eta_conn_flange'] + 1) / 2. * s.flange.b
+    K11, K12, K22 = rc.conn_hessian('BFycte', refb, reff, kt, kr, y1c, y2c)
+    kff = pan.dense(s.flange.calc_k0(silent=True))
+    ob, of = nskin, nskin + nb
+    got12, got22 = K[ob:ob + nb, of:of + nf], K[of:of + nf, of:of + nf]
+    sc = np.abs(K22).max() + np.abs(kff).max()
+    if np.abs(got12 - K12).max() > 1e-9 * sc:
+        fails.append(fail('T-stiffener: base-flange coupling block is not the Hessian of the mismatch energy on the stated interface lines', sig=None,
+                          case=case, rel=float(np.abs(got12 - K12).max() / sc)))
+    if np.abs(got22 - (kff + K22)).max() > 1e-9 * sc:
+        fails.append(fail('T-stiffener: flange block is not the flange stiffness plus the connection Hessian on the stated interface line', sig=None,
+                          case=case, rel=float(np.abs(got22 - (kff + K22)).max() / sc)))
+    return dict(fails=fails, execs=3, transitions=3, nontrivial=1)
+
+
+def check_b2d(case):
+    """skin-flange connection assembled inside BladeStiff2D.calc_k0 (flange only): whole stiffener contribution"""
+    import compmech.panel.connections as connections
+    fails = []
+    spb = _bay(case['curved'], case['seed'])
+    ys = case['ysf'] * spb.b
+    spb.add_panel(y1=0., y2=ys)
+    spb.add_panel(y1=ys, y2=spb.b)
+    s = spb.add_bladestiff2d(ys=ys, mu=1500., bf=case['bf'], fstack=[0., 90., 0.], fplyt=pan.PLYT, flaminaprop=pan.M6, mf=4, nf=3)
+    Kt = pan.dense(spb.calc_k0(silent=True))
+    size = spb.get_size()
+    nskin = 3 * spb.m * spb.n
+    nf = 3 * s.flange.m * s.flange.n
+    spb0 = _bay(case['curved'], case['seed'])
+    spb0.add_panel(y1=0., y2=ys)
+    spb0.add_panel(y1=ys, y2=spb.b)
+    Ks = pan.dense(spb0.calc_k0(silent=True))
+    kt, kr = connections.calc_kt_kr(s.panel1, s.flange, 'ycte')
+    refs = pan.rp.PanelRef(spb.a, spb.b, spb.m, spb.n, {}, r=(2.0 if case['curved'] else None))
+    reff = _ref_of_panel(s.flange)
+    K11, K12, K22 = rc.conn_hessian('BFycte', refs, reff, kt, kr, ys, 0.0)
+    exp = np.zeros((size, size))
+    exp[:nskin, :nskin] = Ks + K11
+    exp[:nskin, nskin:] = K12
+    exp[nskin:, :nskin] = K12.T
+    exp[nskin:, nskin:] = pan.dense(s.flange.calc_k0(silent=True)) + K22
+    sc = np.abs(exp).max()
+    if np.abs(Kt - exp).max() > 1e-9 * sc:
+        idx = np.unravel_index(np.argmax(np.abs(Kt - exp)), exp.shape)
+        fails.append(fail('blade stiffener: bay stiffness is not skin + flange + Hessian of the skin-flange mismatch energy at the stiffener position',
+                          sig=None, case=case, index=[int(i) for i in idx], got=float(Kt[idx]), expected=float(exp[idx])))
     return dict(fails=fails, execs=3, transitions=3, nontrivial=1)
 
 
 def check_case(case):
-    return check_conn(case) if case['kind'] == 'conn' else check_ktkr(case)
+    return dict(conn=check_conn, ktkr=check_ktkr, tstiff=check_tstiff, b2d=check_b2d)[case['kind']](case)
